@@ -1309,7 +1309,9 @@ class ParameterGrid(object):
 
         floatD = (value - self._lower_bound)/self._delta
         floatD = np.around(floatD, 9)
-        intD = floatD.astype(np.int64)
+        # Use the floor and not the truncation toward zero, so that values
+        # below the lower bound of the grid are counted correctly, too.
+        intD = np.floor(floatD).astype(np.int64)
 
         return (floatD, intD)
 
